@@ -453,6 +453,28 @@ CHECKS['C14'] = {
     'level_note': 'Trusted: central differences with stated truncation bounds. Not covered: limits/distances off the lattice, infeasible requests.',
 }
 
+
+def c08_jobs(tier):
+    src = ['src/linalg.c', 'src/linalg_plu.c', 'src/linalg_ldl.c', 'src/linalg_llt.c', 'src/math.c', 'src/a.c']
+    libs = ['-lquadmath', '-lm']
+    jobs = grid_jobs('fact-f64', 'harness/fact.cpp', src, tier, 16, libs=libs)
+    jobs += grid_jobs('fact-f32', 'harness/fact.cpp', src, 'quick', 16, defs=['-DA_SIZE_REAL=4'], libs=libs)
+    return jobs
+
+
+CHECKS['C08'] = {
+    'title': 'LU, LDL^T and Cholesky factorizations reconstruct, solve and fail correctly', 'level': 'exploration', 'engine': 'grid', 'jobs': c08_jobs,
+    'rule': ('bounded-exhaustive enumeration of matrices with an exact integer classification (fraction-free Bareiss minors in __int128) and __float128 reconstruction: LU with partial pivoting on ALL matrices of order 1..3 over {-2..2} (1.95 million of order 3), order 4 over {0,1} (quick) / {-1,0,1} (thorough, 43 million), '
+             'and P*L*U families of order 5 (6 in thorough) under EVERY row permutation so that every pivot order occurs; LDL^T and Cholesky on ALL symmetric matrices of order 1..3 over {-2..2} and order 4 over {-1,0,1} ({-2..2} thorough), Cholesky also with the diagonal shifted by 3, plus named non-positive pivots at every position for orders 1..5; '
+             'every matrix also under row / column (symmetric for LDL/LLT) scalings by 2^+-20 and 2^+-200 (2^+-60 for float); right-hand sides: unit vectors and all vectors over {-1,0,1}. On success: pivot vector is a permutation whose parity equals the reported sign, |multipliers| <= 1, strictly positive Cholesky diagonal, '
+             'P*A - L*U (A - L*D*L^T, A - L*L^T) within the componentwise bound 4n eps (|L||U|), extractors match the packed storage, solve and both inverse variants satisfy the componentwise backward-error bound 16n eps (|L||U|)|x| and agree with each other within it, det within the perturbation bound of the exact determinant, exp(lndet) and sgndet consistent. '
+             'On failure: the exact determinant (LU) / a leading principal minor (LDL, LLT) must vanish (be non-positive); conversely zero columns, equal rows and - wherever the arithmetic up to that point is exact (dyadic) - vanishing LDL pivots and non-positive Cholesky pivots must be reported as failure; every exactly nonsingular / regular / positive definite lattice matrix must succeed. Guard cells around every output.'),
+    'assumptions': ['when earlier pivots are not dyadic an exactly vanishing later pivot may come out as rounding noise of either sign; failure is then neither required nor forbidden', 'libquadmath products of small integers and powers of two are exact'],
+    'design_ref': '§4.C08', 'technique': 'bounded-exhaustive enumeration of complete small-integer matrix lattices (with power-of-two scalings) against exact Bareiss classification and quad-precision reconstruction bounds',
+    'level_text': 'Every matrix of the stated integer lattices (millions per class, every sign pattern, every pivot order up to order 4, every row permutation for orders 5/6, badly scaled variants, exactly singular and indefinite inputs) is factorised by the real code; success is checked against the standard componentwise backward-error bounds with exact references, failure against exact singularity.',
+    'level_note': 'Trusted: __int128 / __float128 arithmetic. Not covered: orders above 6, non-integer ill-conditioned data.',
+}
+
 # ---------------------------------------------------------------- manifest texts
 CHECKS['C01'].update({
     'design_ref': '§4.C01', 'technique': 'explicit-state BFS to a fixpoint over the real src/avl.c (size-bounded, unbounded history length), lock-step reference set, API-replay conformance of every state',
